@@ -197,12 +197,23 @@ func (t *tsImmTableImpl) makeTSSPFiles(m *MmsTables, name string, isOrder bool, 
 func (t *tsImmTableImpl) AddBothTSSPFiles(flushed *bool, m *MmsTables, name string, orderFiles []TSSPFile, unorderFiles []TSSPFile) {
 	var orderFs *TSSPFiles
 	var unorderFs *TSSPFiles
-	if len(orderFiles) != 0 {
-		orderFs = t.makeTSSPFiles(m, name, true, orderFiles)
+	for {
+		if len(orderFiles) != 0 {
+			orderFs = t.makeTSSPFiles(m, name, true, orderFiles)
+		}
+		if len(unorderFiles) != 0 {
+			unorderFs = t.makeTSSPFiles(m, name, false, unorderFiles)
+		}
+		// deleteUnorderedFiles removes an empty list from the map under m.mu: keep the read
+		// lock until the new files are appended, and look the lists up again if one was
+		// removed meanwhile, otherwise the flushed files land in a list no query can see
+		m.mu.RLock()
+		if (orderFs == nil || m.Order[name] == orderFs) && (unorderFs == nil || m.OutOfOrder[name] == unorderFs) {
+			break
+		}
+		m.mu.RUnlock()
 	}
-	if len(unorderFiles) != 0 {
-		unorderFs = t.makeTSSPFiles(m, name, false, unorderFiles)
-	}
+	defer m.mu.RUnlock()
 	if orderFs != nil {
 		orderFs.lock.Lock()
 		defer orderFs.lock.Unlock()
